@@ -76,6 +76,8 @@ CATALOGUE = {
     "PiecewisePolynomialKernel": lambda: K.PiecewisePolynomialKernel(q=2),
     "RFFKernel": lambda: K.RFFKernel(num_samples=4, num_dims=2),
     "CylindricalKernel": lambda: K.CylindricalKernel(3, K.RBFKernel()),
+    "CylindricalKernel_priors": lambda: K.CylindricalKernel(3, K.RBFKernel(), angular_weights_prior=_gamma(), alpha_prior=_gamma(), beta_prior=_gamma()),
+    "StudentTLikelihood_priors": lambda: L.StudentTLikelihood(noise_prior=_gamma(), deg_free_prior=P.GammaPrior(4.0, 1.0)),
     "ArcKernel": lambda: K.ArcKernel(K.MaternKernel(nu=2.5), angle_prior=P.GammaPrior(0.5, 1), radius_prior=P.GammaPrior(3, 2), ard_num_dims=2),
     "ProductOfKernels": lambda: K.RBFKernel() * K.PeriodicKernel() + K.ScaleKernel(K.LinearKernel()),
     "GaussianLikelihood": lambda: L.GaussianLikelihood(noise_prior=_gamma()),
@@ -628,6 +630,8 @@ def execute(history):
                         for name2, owner2, raw2, pub2 in plist:
                             if owner2 is pmod:
                                 ref.value[name2] = read(owner2, pub2)
+                    except AttributeError as e:
+                        out.violate("sample_from_prior_raises", i, "%s.sample_from_prior(%s) raised AttributeError(%s): the setting closure is broken" % (entry, local, str(e)[:120]), family=entry, prior=type(prior).__name__)
                     except (RuntimeError, ValueError, TypeError) as e:
                         # sample outside the constraint's bounds (e.g. a Normal draw for a positive parameter): legitimately rejected
                         out.stats["rejected:sample_from_prior_" + type(e).__name__] += 1
